@@ -340,6 +340,7 @@ class C10(PropertyCheck):
         "QipVerif.C10.definitions_sound",
         "QipVerif.C10.export_den",
         "QipVerif.C10.export_den_G",
+        "QipVerif.C10.roundtrip_den_partial",
         "QipVerif.C10.base_names_are_qelib1",
         "QipVerif.C10.export_measure_counterexample",
         "QipVerif.C10.export_exponent_counterexample",
@@ -349,7 +350,9 @@ class C10(PropertyCheck):
                   "by a strict OpenQASM 2.0 recogniser written from the language paper, passes the standard's static "
                   "semantics, and denotes exactly the circuit's sequence of gate calls; its full expansion to U/CX has, on every "
                   "register size, the circuit's unitary (denG / denX of the central embedding algebra) up to one global phase "
-                  "(export_den, by naturality of the expansion + localisation); every auxiliary gate definition the "
+                  "(export_den, by naturality of the expansion + localisation); for circuits whose gates need no emitted "
+                  "definition the importer model of C04 re-imports the text to a gate list with the same unitary up to one "
+                  "global phase (roundtrip_den_partial); every auxiliary gate definition the "
                   "exporter emits denotes the documented matrix up to one global phase (matrix identities over C); circuits "
                   "with a non-exportable gate are refused. Partial: measurements (exported without ';') and parameters "
                   "printed without a decimal point (1e-20) are excluded and proved to be counter-examples. The model is tied "
